@@ -606,6 +606,25 @@ func init() {
 				if got != want {
 					r.Violation("contents:"+callKind(names[len(names)-1]), fmt.Sprintf("after %s the contents differ from the reference model:\n--- lungo\n%s--- model\n%s", strings.Join(names, " ; "), got, want), map[string]interface{}{"calls": names})
 				}
+				// damage that the contents do not show (a document the indexes no longer find): every document must still
+				// be writable and removable, with the results the model gives (the engine is discarded afterwards)
+				if got == want {
+					var colls []string
+					for k := range env.m.Colls {
+						colls = append(colls, k)
+					}
+					sort.Strings(colls)
+					for _, k := range colls {
+						parts := strings.SplitN(k, ".", 2)
+						for _, p := range []c01Pair{pUpdate(parts[0], parts[1], true, bD(), bD("$set", bD("probe", int32(1))), false), pDelete(parts[0], parts[1], true, bD())} {
+							g := p.real.Do(w)
+							m := p.model(env.m)
+							if g != m {
+								r.Violation("later-write:"+callKind(names[len(names)-1]), fmt.Sprintf("after %s a following %s returns %q, the reference model %q", strings.Join(names, " ; "), p.real.Name, g, m), map[string]interface{}{"calls": append(append([]string{}, names...), p.real.Name)})
+							}
+						}
+					}
+				}
 				mu.Lock()
 				compared++
 				stateChecks++
